@@ -15,8 +15,16 @@ assert demos, "no demo"
 demo = os.path.join(md, demos[0])
 first = open(demo).readline()
 m = re.search(r"[Cc]opy to:?\s*(\S+\.go)", first)
-assert m, "cannot find destination in: " + first
-dest = m.group(1)
+if m:
+    dest = m.group(1)
+else:
+    f = re.search(r"(\S*_test\.go)", first)
+    d = re.search(r"(?:into|to)\s+(?:directory\s+)?(\S+?/)(?:\s|$)", first)
+    assert f, "cannot find destination in: " + first
+    dest = f.group(1)
+    if "/" not in dest:
+        assert d, "cannot find directory in: " + first
+        dest = d.group(1) + dest
 pkgdir = "./" + os.path.dirname(dest) + "/"
 rm = re.search(r"-run\s+(\S+)", first)
 runpat = rm.group(1) if rm else "."
